@@ -738,6 +738,10 @@ impl Archive {
                     }
                 }
             }
+        } else {
+            // An archive without files has a block table of zero entries: that is an
+            // empty table, not a missing one (listing such an archive yields nothing)
+            self.block_table = BlockTable::new(0).ok();
         }
 
         // Load hi-block table if present (v2+)
